@@ -22,7 +22,7 @@ def main():
         print("refusing: /repo has uncommitted changes:\n" + st)
         return 2
     summary = {}
-    for d in sorted(glob.glob(SEEDED + "/C*-m*")):
+    for d in sorted(glob.glob(SEEDED + "/C*-*m[0-9]")):
         mid = os.path.basename(d)
         prop = mid.split("-")[0]
         if args and mid not in args and prop not in args:
